@@ -10,7 +10,7 @@ RULE = ("schema family: one non-recycling validator validates the same value twi
 
 
 def correspond(ctx, C):
-    n = 3000 if ctx.tier == "quick" else 200000
+    n = 10000 if ctx.tier == "quick" else 200000
     if ctx.search:
         n *= 3
     rows = C.run_family("schema", n, ctx.seed + 8, ctx.tier, replay=S.replay_file(ctx, C))
